@@ -58,7 +58,17 @@ CliResult CliEnv::run(const Plan &p, const Bytes &arch) {
 	g_sim.write_fail_at = p.geti("write_fail_at", -1);
 	g_sim.write_errno = (int) p.geti("write_errno", 28);
 	bool from_stdin = p.argv.size() > 2 && p.argv[2] == "-";
+	// A-FAIL(k): the k-th allocation made by the tool or the library fails
+	int64_t afail = p.geti("afail", -1);
+	if (afail >= 0) { g_sim.ledger = true; g_sim.fail_at = afail; g_sim.nallocs = 0; g_sim.fail_fired = false; }
 	CliResult r = run_cli(p.argv, p.stdin_script, from_stdin ? &src : nullptr);
+	if (afail >= 0) {
+		// the tool exits without releasing everything: drop the ledger's view of the run
+		g_sim.ledger = false;
+		g_sim.fail_at = -1;
+		g_sim.live.clear();
+		g_sim.live_bytes = 0;
+	}
 	g_sim.fs = nullptr;
 	g_sim.clock_on = false;
 	g_sim.archive_src = nullptr;
